@@ -75,6 +75,9 @@ func (w *World) AddFdLink(name string, mtu uint32, addr tcpip.LinkAddress, resol
 // emitEthernet is the far end of the descriptor: one written frame.
 func (l *Link) emitEthernet(frame []byte) {
 	w := l.w
+	if w.storm() {
+		return
+	}
 	f := &Frame{ID: w.nframes, Link: l.Idx, At: time.Since(w.T0), Eth: true}
 	w.nframes++
 	l.Sent++
